@@ -12,6 +12,7 @@ import (
 	"strings"
 
 	"verifharness/extract/ex"
+	"verifharness/extract/pkgvars"
 )
 
 // srcLines: the function's signature and body as gofmt prints them (comments dropped), one trimmed
@@ -221,6 +222,38 @@ func runBls(repo string) (string, error) {
 	if err := src("PubPoly_Eval", shfs, ex.FuncDecl(shf, "PubPoly", "Eval")); err != nil {
 		return "", err
 	}
+	// ---- the emitters / splitters the contract calls go through (review 4-C06 #5, #9) ----
+	if err := src("bls_NewKeyPair", bfs, ex.FuncDecl(bf, "", "NewKeyPair")); err != nil {
+		return "", err
+	}
+	dfs, df, err := ex.Parse(filepath.Join(repo, "share", "dkg", "pedersen", "pdkg.go"))
+	if err != nil {
+		return "", err
+	}
+	if err := src("dkg_decodePubKey", dfs, ex.FuncDecl(df, "", "decodePubKey")); err != nil {
+		return "", err
+	}
+	vfs, vf, err := ex.Parse(filepath.Join(repo, "share", "vss", "pedersen", "vss.go"))
+	if err != nil {
+		return "", err
+	}
+	if err := src("Signature_ToBigInt", vfs, ex.FuncDecl(vf, "Signature", "ToBigInt")); err != nil {
+		return "", err
+	}
+	// ---- group/bn256 HAS package-level variables (constants, generators, reflect types): the complete list,
+	// with "written outside init" (assigned, ++, &x, a method called on it) as go/extract/pkgvars decides it ----
+	bnVars, err := pkgvars.Collect(repo, filepath.Join("group", "bn256"))
+	if err != nil {
+		return "", err
+	}
+	b.WriteString("def bn256_package_vars : List (String × String × Bool) := [")
+	for i, v := range bnVars {
+		if i > 0 {
+			b.WriteString(", ")
+		}
+		fmt.Fprintf(&b, "(%s, %s, %s)", ex.LeanStr(v.File), ex.LeanStr(v.Name), leanBool(v.Written))
+	}
+	b.WriteString("]\n")
 	// ---- no hidden state: the packages declare no package-level variable; their imports and functions ----
 	for _, pk := range []string{"bls", "tbls"} {
 		vars, imports, funcs, err := pkgFacts(filepath.Join(repo, "sign", pk))
